@@ -9,7 +9,7 @@ LEVEL = 'model_checking'
 
 
 def items(tier):
-    out = tt.family_T(tier) + tt.family_H(tier) + tt.family_Q(tier) + tt.family_P(tier)
+    out = tt.family_T(tier) + tt.family_H(tier) + tt.family_Q(tier) + tt.family_P(tier) + tt.family_R(tier)
     return [(i,) + it for i, it in enumerate(out)]
 
 
@@ -31,6 +31,10 @@ def run_item(item, tier):
         run_batch(st, tt.build_Q, payload, tt.Q_ARGVS, Ws, f'Q[{idx}]')
         pi, l, r = payload[0]
         st.sample({'family': 'Q', 'use': tt.Q_POS[pi], 'left': l, 'right': r})
+    elif fam == 'R':
+        run_batch(st, tt.build_R, payload, tt.T_ARGVS, Ws, f'R[{idx}]')
+        sh, pre, e, h, hb = payload[0]
+        st.sample({'family': 'R', 'function': tt.R_SHAPES[sh].format(k=0, pre=tt.R_PRE[pre], e=tt.R_EXPR[e], h=h, hb=tt.R_HB[hb])})
     elif fam == 'Q2':
         run_batch(st, tt.build_Q2, payload, tt.Q_ARGVS, Ws, f'Q2[{idx}]')
     elif fam == 'P':
@@ -48,13 +52,15 @@ def run_item(item, tier):
 
 def coverage(total, tier):
     return std_coverage(total, {
-        'T': f'{len(tt.t_atoms())} try-body atoms (12 base atoms, each also under preempt / if / three loop shapes); all bodies of '
-             'length<=2' + (' plus length 3 over 17 atoms' if tier == 'thorough' else '') + ' x {undo, stop}; 3 further handler bodies '
+        'T': f'{len(tt.t_atoms())} try-body atoms (14 base atoms, each also under preempt / if / three loop shapes); all bodies of '
+             'length<=2' + (' plus length 3 over 19 atoms' if tier == 'thorough' else ' with at least one non-nesting atom') + ' x {undo, stop}; 3 further handler bodies '
              '(return, nested try, you-call) on ' + ('single atoms and all base pairs' if tier == 'thorough' else 'single atoms') + '; x in 0,1,2',
         'H': '20 try blocks (10 bodies x undo/stop): all ordered pairs in three shapes (straight line, loop run 3 times, you-function '
              'called twice) and ' + ('all triples' if tier == 'thorough' else 'triples over 6 blocks') + '; x in 0,1,2',
         'Q': f'{len(tt.Q_LEFT)} left x {len(tt.Q_RIGHT)} right operands x {len(tt.Q_POS)} use positions '
              + ('(all)' if tier == 'thorough' else '(every 2nd, all for assignments to globals)') + f' + {len(tt.Q_OTHER)} bool/byte shapes; x in 0,1,3',
+        'R': f'{len(tt.R_SHAPES)} shapes of value-returning you-functions returning from inside a try x {len(tt.R_PRE)} prefixes x {len(tt.R_EXPR)} return '
+             'expressions (calls of value-returning defeat functions that may defeat) x undo/stop x 3 handler bodies' + ('' if tier == 'thorough' else ' (every 2nd + all plain calls)') + '; x in 0,1,2',
         'P': f'{len(tt.P_FUNCS)} preemptive defeat functions x {len(tt.P_AFTER)} continuations x undo/stop, checked (W 2,4) and unchecked twins',
     })
 
